@@ -1,5 +1,5 @@
 #!/usr/bin/env python3
-"""dev helper: tools_mut.py <Cxx> <file> <old> <new>  -> run vcheck on a scratch copy with one textual edit"""
+"""dev helper: tools/mut.py <Cxx> <file> <old> <new>  -> run vcheck on a scratch copy with one textual edit"""
 import sys, os, shutil, tempfile, subprocess
 pid, rel, old, new = sys.argv[1:5]
 d = tempfile.mkdtemp(prefix='gscan_mut_')
